@@ -62,6 +62,8 @@ for f in kf:
     if f["status"] == "open":
         w("* **%s** (%s) — %s  \n  signature `%s`" % (f["id"], f["property"], f["what"], json.dumps(f.get("signature", {}), ensure_ascii=False)))
 w("")
+w("### What the proofs' forced hypotheses found\n")
+w(open(os.path.join(V, "docs", "model_findings.md")).read())
 w("## Appendix D — corrections to the machinery\n")
 w(open(os.path.join(V, "docs", "corrections.md")).read())
 w("## Appendix E — seeded changes and the checks that catch them\n")
